@@ -474,6 +474,8 @@ func checkC02(r *core.Run) {
 		coupleSame(r, "T-couple", h, "node/types.Pledge.TotalStorage", "node/types.Pool.TotalStorage", false)
 		coupleSame(r, "T-couple", h, "node/types.Pledge.TotalStoragePledged", "node/types.Pool.TotalPledged.Amount", true)
 	}
+	r.Rule("L2-index: in block-hook-reachable code a slice indexed by a value read from the store (a persisted cursor) is first compared with the slice's length")
+	ruleL2Index(r, "L2-index")
 	ruleL1(r)
 	ruleL2(r)
 	ruleL2Couple(r)
